@@ -637,19 +637,52 @@ class BcdView final {
   ValueType UncheckedRead() const {
     return ConvertToBinary(buffer_.UncheckedReadUInt());
   }
-  void Write(ValueType value) const {
+  // As in UIntView, Write, TryToWrite and CouldWriteValue are templated on the
+  // argument type: taking ValueType by value would silently narrow a wider
+  // argument (256 written to a two-digit Bcd would arrive as 0) before the range
+  // check sees it.
+  template <typename IntT,
+            typename = typename ::std::enable_if<
+                ::std::numeric_limits<typename ::std::remove_cv<
+                    typename ::std::remove_reference<IntT>::type>::type>::
+                    is_integer &&
+                !::std::is_same<bool, typename ::std::remove_cv<
+                                          typename ::std::remove_reference<
+                                              IntT>::type>::type>::value>::type>
+  void Write(IntT value) const {
     const bool result = TryToWrite(value);
     (void)result;
     EMBOSS_CHECK(result);
   }
-  bool TryToWrite(ValueType value) const {
+  template <typename IntT,
+            typename = typename ::std::enable_if<
+                ::std::numeric_limits<typename ::std::remove_cv<
+                    typename ::std::remove_reference<IntT>::type>::type>::
+                    is_integer &&
+                !::std::is_same<bool, typename ::std::remove_cv<
+                                          typename ::std::remove_reference<
+                                              IntT>::type>::type>::value>::type>
+  bool TryToWrite(IntT value) const {
     if (!CouldWriteValue(value)) return false;
     if (!IsComplete()) return false;
-    buffer_.WriteUInt(ConvertToBcd(value));
+    buffer_.WriteUInt(ConvertToBcd(static_cast<ValueType>(value)));
     return true;
   }
-  static constexpr bool CouldWriteValue(ValueType value) {
-    return value <= MaxValue() && Parameters::ValueIsOk(value);
+  template <typename IntT,
+            typename = typename ::std::enable_if<
+                ::std::numeric_limits<typename ::std::remove_cv<
+                    typename ::std::remove_reference<IntT>::type>::type>::
+                    is_integer &&
+                !::std::is_same<bool, typename ::std::remove_cv<
+                                          typename ::std::remove_reference<
+                                              IntT>::type>::type>::value>::type>
+  static constexpr bool CouldWriteValue(IntT value) {
+    // Compare in a type that holds both: negative values fail the first test,
+    // and anything that passes it is non-negative and fits in uint64_t.
+    return value >= 0 &&
+           static_cast</**/ ::std::uint64_t>(value) <=
+               static_cast</**/ ::std::uint64_t>(MaxValue()) &&
+           Parameters::ValueIsOk(static_cast<ValueType>(value));
   }
   void UncheckedWrite(ValueType value) const {
     buffer_.UncheckedWriteUInt(ConvertToBcd(value));
